@@ -1159,6 +1159,7 @@ func (t *tree) newFunctionNode(tok item) ast.Node {
 
 // next returns the next token.
 func (t *tree) next() item {
+	verifParseStep()
 	if t.peekCount > 0 {
 		t.peekCount--
 	} else {
